@@ -78,9 +78,14 @@ def one(ctx, sk, curve, dom, d, k, digest, at, cls_hint, keybase, via="sign_dige
         ctx.count("bytes_like_arguments")
     try:
         if via == "sign_number":
-            got = sk.sign_number(e, k=k)
+            got = sk.sign_number(e, k=k) if _BL["i"] % 5 != 2 else sk.sign_number(e, entropy=lambda nb: b"\xa5" * nb, k=k)
         else:
-            got = sk.sign_digest(dig_arg, sigencode=lambda r, s, o: (r, s, o), k=k, allow_truncate=gen.boolish(at, _BL["i"]))
+            if _BL["i"] % 5 == 2:
+                # an entropy source given as well: the pinned nonce is the nonce, the source is not consulted for it
+                ctx.count("calls_with_both_k_and_entropy")
+                got = sk.sign_digest(dig_arg, entropy=lambda nb: b"\x5a" * nb, sigencode=lambda r, s, o: (r, s, o), k=k, allow_truncate=gen.boolish(at, _BL["i"]))
+            else:
+                got = sk.sign_digest(dig_arg, sigencode=lambda r, s, o: (r, s, o), k=k, allow_truncate=gen.boolish(at, _BL["i"]))
         outcome = None
     except RSZeroError:
         outcome = "RSZeroError"
